@@ -3,7 +3,7 @@
    model (coq/c07/C07Model.v); E and D are arbitrary functions from key and block to block. *)
 From V.lib Require Import Base.
 From V.c07 Require Import C07Model.
-From V.c06 Require Import C06Model C06InitModel C06StructProofs C06CencProofs C06CbcsProofs C06SampleProofs C06InitProofs.
+From V.c06 Require Import C06Model C06InitModel C06StructProofs C06CencProofs C06CbcsProofs C06SampleProofs C06InitProofs C06FragModel C06FragProofs.
 
 (* cenc: crypting twice with the same key, IV and sub-sample map restores the sample — for EVERY block function
    E, every map (empty = whole sample, partial last block, clear runs > 65535, even overlapping or wrapping
@@ -41,12 +41,12 @@ Print Assumptions C06_remove_encryption_boxes.
 (* structure round trip for every single-traf fragment with arbitrary opaque boxes in moof and traf (no guard
    on uuid boxes any more): EncryptFragment, encode + decode at any position, DecryptFragment gives the encoded +
    decoded clear fragment: same children in the same order, the clear data offset and mdat position *)
-Theorem C06_fragment_roundtrip : forall start cs mdat_hdr saiz_sz senc_sz ids,
+Theorem C06_fragment_struct_roundtrip : forall start cs mdat_hdr saiz_sz senc_sz ids,
   clean_moof cs = true -> nr_trafs cs = 1%nat ->
   decrypt_frag_struct (layout start (add_enc_boxes cs saiz_sz senc_sz ids) mdat_hdr)
   = Ok (layout start cs mdat_hdr).
 Proof. exact fragment_struct_roundtrip. Qed.
-Print Assumptions C06_fragment_roundtrip.
+Print Assumptions C06_fragment_struct_roundtrip.
 
 (* IV sequence + sample round trip, cenc: decryptSamplesInPlace, fed with the IVs and sub-sample lists that the
    per-sample loop of EncryptFragment stored (as the senc decoder returns them), decrypts sample i with the IV and
@@ -102,6 +102,46 @@ Theorem C06_init_roundtrip : forall m iv sch kid psshs ps_ok m' t,
 Proof. exact init_roundtrip. Qed.
 Print Assumptions C06_init_roundtrip.
 
+(* the whole fragment, sample bytes included: decrypt_frag (encrypt_frag f) = f after an encode/decode cycle at any
+   position: same moof/traf children in order, clear data offset and mdat position, every sample byte restored.
+   cenc: every block function, every protection function (AVC, HEVC, audio = no sub-samples), 8/16-byte IVs *)
+Theorem C06_fragment_roundtrip_cenc :
+  forall (E D : list N -> list N -> list N) (protfunc : list N -> res (list ssp))
+         key iv cb sb start mdat_hdr ids f e constiv,
+  clean_moof (cf_children f) = true -> nr_trafs (cf_children f) = 1%nat ->
+  encrypt_frag E D protfunc Cenc key iv cb sb start mdat_hdr ids f = Ok e ->
+  decrypt_frag E D Cenc key constiv cb sb e = Ok (layout start (cf_children f) mdat_hdr, cf_samples f).
+Proof. exact fragment_roundtrip_cenc. Qed.
+Print Assumptions C06_fragment_roundtrip_cenc.
+
+(* cbcs: D inverts E on 16-byte blocks, the sub-sample maps fit their samples (true for the maps of
+   Get(AVC|HEVC)ProtectRanges by C07_cbcs_shape, and for audio), constant IV = padded encryption IV *)
+Theorem C06_fragment_roundtrip_cbcs :
+  forall (E D : list N -> list N -> list N) (protfunc : list N -> res (list ssp))
+         key iv cb sb start mdat_hdr ids f e,
+  (forall k b, length (E k b) = 16%nat) ->
+  (forall k b, length (D k b) = 16%nat) ->
+  (forall k b, length b = 16%nat -> D k (E k b) = b) ->
+  key_ok key = true ->
+  (forall s ssps, In s (cf_samples f) -> protfunc s = Ok ssps -> fits s ssps) ->
+  clean_moof (cf_children f) = true -> nr_trafs (cf_children f) = 1%nat ->
+  encrypt_frag E D protfunc Cbcs key iv cb sb start mdat_hdr ids f = Ok e ->
+  decrypt_frag E D Cbcs key (pad_iv iv) cb sb e = Ok (layout start (cf_children f) mdat_hdr, cf_samples f).
+Proof. exact fragment_roundtrip_cbcs. Qed.
+Print Assumptions C06_fragment_roundtrip_cbcs.
+
+(* third-party cenc content: a successful DecryptFragment keeps the sample count and every sample size, and
+   shifts the offsets by exactly the removed bytes (cbcs sizes: explored on the repository's cbcs files) *)
+Theorem C06_decrypt_preserves_timing :
+  forall (E D : list N -> list N -> list N) key constiv cb sb e g samples,
+  decrypt_frag E D Cenc key constiv cb sb e = Ok (g, samples) ->
+  map (@length N) samples = map (@length N) (ef_data e) /\
+  f_moof_start g = f_moof_start (ef_frag e) /\
+  moof_size (f_children g) + (f_data_offset (ef_frag e) - f_data_offset g) = moof_size (f_children (ef_frag e)) /\
+  f_data_offset g <= f_data_offset (ef_frag e).
+Proof. exact decrypt_preserves_timing. Qed.
+Print Assumptions C06_decrypt_preserves_timing.
+
 (* ---------------------------------------------------------------- examples *)
 (* the defect of the pinned tree (fixed by the `fix:` commit): traf{tfhd, tfxd-uuid} lost its uuid box and no
    byte was counted *)
@@ -155,3 +195,16 @@ Example ex_init_own_sinf :
   | _ => False
   end.
 Proof. vm_compute. eexists. reflexivity. Qed.
+
+(* the hypotheses of the fragment round trips are satisfiable: an AVC cenc fragment with a tfxd-like uuid box *)
+Example ex_frag_roundtrip :
+  let f := mkC [MOther 16 1; MTraf [mkT TOther 16 2; mkT TOther 20 3; mkT TTrun 60 4; mkT TUuidOther 44 5]]
+               [C07Spec.frames [101 :: repeat 7 139; [6; 1]]; C07Spec.frames [65 :: repeat 9 120]] in
+  clean_moof (cf_children f) = true /\ nr_trafs (cf_children f) = 1%nat /\
+  match encrypt_frag ex_E ex_E (protect_ranges avc_is_video (fun _ => Err) Cenc) Cenc (repeat 3 16) (repeat 255 8)
+                     0 0 500 8 100 f with
+  | Ok e => decrypt_frag ex_E ex_E Cenc (repeat 3 16) [] 0 0 e = Ok (layout 500 (cf_children f) 8, cf_samples f)
+            /\ ef_data e <> cf_samples f
+  | _ => False
+  end.
+Proof. vm_compute. repeat split; try reflexivity. discriminate. Qed.
